@@ -1193,7 +1193,7 @@ func c19SnapForms(sess *c19Session, text string) (tokens []string) {
 		case "defflavor", "defpackage":
 			dep(head)
 		case "defclass", "define-condition":
-			dep("defclass")
+			// no need: slip's defclass accepts superclasses that are defined later
 		case "defconstant", "defgeneric":
 			needs = append(needs, d.Needs...)
 		case "setq":
@@ -1307,7 +1307,9 @@ func c19RunSessions(c *lib.Ctx) {
 		if res.Invalid != "" {
 			continue
 		}
-		for _, kind := range []string{"defflavor", "defpackage", "defclass"} {
+		// (classes: slip accepts a superclass defined after its subclasses, so the order of the class
+		// section is not judged; the instances made from them are — probes, snapload)
+		for _, kind := range []string{"defflavor", "defpackage"} {
 			observed := res.Order
 			if kind == "defpackage" {
 				observed = res.PkgOrder
@@ -1398,6 +1400,14 @@ func c19RunSessions(c *lib.Ctx) {
 			c.Ev.Count("snapload_model_and_load_ok", 1)
 		case f[1] == "nil" && !loaded:
 			c.Ev.Count("snapload_model_predicts_failed_load", 1)
+			if res.Detail == "whole-file" && len(f) >= 3 {
+				// every form evaluates when read and evaluated one by one, (load file) fails: the cause is
+				// the order in which load evaluates the forms, and the model names the form. The same
+				// construct must have the same signature wherever the snapshot writes the form.
+				if head, name, ok := strings.Cut(f[2], "|"); ok {
+					res.Detail = head + ":" + res.Sess.ownerKind(name)
+				}
+			}
 			res.Observed += "; model (lf snapload): " + strings.Join(f[2:], " ") + " is evaluated before a definition it needs (load evaluates defun/defmacro/defvar/defparameter/defconstant forms first)"
 		case f[1] == "nil" && loaded:
 			// the model demands a definition the implementation did not need: never a verdict
@@ -1457,7 +1467,6 @@ func c19RunSessions(c *lib.Ctx) {
 func c19ModelOrder(c *lib.Ctx, res *c19SessResult) {
 	c19ModelOrderOf(c, res, "defflavor", res.Order)
 	c19ModelOrderOf(c, res, "defpackage", res.PkgOrder)
-	c19ModelOrderOf(c, res, "defclass", res.ClassOrder)
 }
 
 func c19ModelOrderOf(c *lib.Ctx, res *c19SessResult, kind string, order []string) {
